@@ -25,7 +25,7 @@ def real_side(case):
         dims = [s.dim for s in A.sites]
     window = 1
     if not finite:
-        window = 3 if float(np.prod(dims)) ** 3 <= 1100 else 2
+        window = 3 if float(np.prod(dims)) ** 3 <= 100 else 2
     return dict(A=A, B=B, dims=dims, window=window)
 
 
@@ -54,10 +54,26 @@ def lean_request(case, real):
     return req
 
 
-def cmp_mpo(fails, name, H, lean_j):
+def mpo_json_close(a, b, tol=1e-12):
+    """same structure, coefficients equal to relative tol (site matrices with irrational entries)"""
+    if a['chi'] != b['chi'] or a['idL'] != b['idL'] or a['idR'] != b['idR'] or len(a['W']) != len(b['W']):
+        return False
+    for wa, wb in zip(a['W'], b['W']):
+        da = {tuple(e[:4]): oc.parse_gq(e[4]) for e in wa}
+        db = {tuple(e[:4]): oc.parse_gq(e[4]) for e in wb}
+        for k in set(da) | set(db):
+            x, y = da.get(k, 0.0), db.get(k, 0.0)
+            if abs(x - y) > tol * max(1.0, abs(x), abs(y)):
+                return False
+    return True
+
+
+def cmp_mpo(fails, name, H, lean_j, exact=True):
     """tensors and markers of an implementation MPO vs the model"""
     got = cl.norm_mpo_json(cl.mpo_json(H))
     want = cl.norm_mpo_json(lean_j)
+    if not exact and mpo_json_close(got, want):
+        return
     if got != want:
         for k in ('chi', 'idL', 'idR'):
             if got[k] != want[k]:
@@ -127,19 +143,55 @@ def check_case(case, lean_out, real=None, use_model=True):
     herm_exact = oc.herm_defect(dA) <= tol
     facts['hermitian'] = herm_exact
     ih = attempt('is_hermitian', lambda: bool(A.is_hermitian()))
-    if ih is not None and np.max(np.abs(dA)) > 0:
-        if ih != herm_exact and (herm_exact or oc.herm_defect(dA) > 1e-3):
-            prop('is_hermitian.wrong', f'is_hermitian() = {ih}, hermiticity defect of the dense operator {oc.herm_defect(dA):.2e}')
+    if ih is not None:
+        dh, hd = dA, oc.herm_defect(dA)
+        if not finite:
+            # decided on a window of L + 2*max_range sites (3L if the range is unknown)
+            r = A.max_range
+            n = A.L + 2 * int(r) if (r is not None and r < np.inf) else 3 * A.L
+            dsite = float(np.prod(dims)) ** (1.0 / len(dims))
+            dh = cl.mpo_dense(A, n) if dsite ** n <= 1300 else None
+            hd = oc.herm_defect(dh) if dh is not None else None
+        if dh is not None and np.max(np.abs(dh)) > 0:
+            exp_h = hd <= tol
+            if ih != exp_h and (exp_h or hd > 1e-3):
+                prop('is_hermitian.wrong', f'is_hermitian() = {ih}, hermiticity defect of the dense operator {hd:.2e}')
     # ---- equality, overlap, distance -----------------------------------------------------------
     if B is not None:
         diff = oc.maxdiff(dA, dB)
         eq_exact = diff <= tol
         facts['pair_equal' if eq_exact else 'pair_unequal'] = True
         ie = attempt('is_equal', lambda: bool(A.is_equal(B)))
-        if ie is not None and (np.max(np.abs(dA)) > 0 or np.max(np.abs(dB)) > 0):
+        if ie is not None and finite and (np.max(np.abs(dA)) > 0 or np.max(np.abs(dB)) > 0):
             if ie != eq_exact and (eq_exact or diff > 1e-3):
                 sig = 'is_equal.false-positive' if ie else 'is_equal.false-negative'
                 prop(sig, f'is_equal = {ie}, dense operators differ by {diff:.2e}')
+        if ie is not None and not finite:
+            # the decision is about the terms inside a window of L + 2*max_range sites; a symmetric decision needs
+            # the larger max_range of the two operators
+            def known(r):
+                return r is not None and r < np.inf
+            rA, rB = A.max_range, B.max_range
+            n_need = A.L + 2 * int(max(rA, rB)) if known(rA) and known(rB) else 3 * A.L
+            n_used = A.L + 2 * int(rA) if known(rA) else 3 * A.L
+            dsite = float(np.prod(dims)) ** (1.0 / len(dims))
+            if dsite ** max(n_need, n_used) <= 1300:
+                def wdiff(n):
+                    a, b = cl.mpo_dense(A, n), cl.mpo_dense(B, n)
+                    return oc.maxdiff(a, b), max(float(np.max(np.abs(a))), float(np.max(np.abs(b))))
+                d_need, m_need = wdiff(n_need)
+                facts['is_equal_infinite'] = True
+                if m_need > 0:
+                    exp_eq = d_need <= tol
+                    if ie != exp_eq and (exp_eq or d_need > 1e-3):
+                        d_used, _ = wdiff(n_used)
+                        if ie and n_used != n_need and d_used <= tol:
+                            prop('is_equal.infinite.window-ignores-other-max_range',
+                                 f'A.is_equal(B) = True although B has a term of range {rB} > A.max_range = {rA}: only '
+                                 f'{n_used} sites are compared, the operators differ on {n_need} sites by {d_need:.2e}')
+                        else:
+                            prop('is_equal.false-positive' if ie else 'is_equal.false-negative',
+                                 f'is_equal = {ie}, windows of {n_need} sites differ by {d_need:.2e}')
         if finite:
             ov = attempt('overlap', lambda: A.overlap(B))
             want = np.vdot(dA.reshape(-1), dB.reshape(-1))
@@ -151,8 +203,17 @@ def check_case(case, lean_out, real=None, use_model=True):
                 prop('distance.not-frobenius', f'distance {dist} vs |A-B|_F^2 {wantd}')
         else:
             # infinite: the default window of overlap/distance
-            ov = attempt('overlap_infinite', lambda: A.overlap(B, understood_infinite=True))
-            nsd = None
+            # infinite: default window of overlap (max_range of both MPOs decides the number of sites)
+            try:
+                with warnings.catch_warnings():
+                    warnings.simplefilter('ignore')
+                    ov = A.overlap(B, understood_infinite=True)
+            except TypeError as e:
+                unknown = B.max_range is None or B.max_range == np.inf
+                prop('overlap.infinite-default-window.other_max_range' if unknown else 'overlap_infinite.error.TypeError',
+                     f'overlap(other) with other.max_range={B.max_range}: {e!r}')
+            except Exception as e:  # noqa: BLE001
+                prop(f'overlap_infinite.error.{type(e).__name__}', repr(e))
     # ---- plus_identity -------------------------------------------------------------------------
     P = None
     if 'plus_identity' in case and markers_everywhere(A) and finite:
@@ -188,32 +249,34 @@ def check_case(case, lean_out, real=None, use_model=True):
     if 'error' in lean_out:
         fails.append(('correspondence', 'model.driver-error', str(lean_out['error'])[:500]))
         return fails, facts
+    # site matrices with irrational entries (bosons, spin-1): rounding makes exact flags meaningless
+    exact = case['kind'] == 'W' or case['site']['cls'] in ('SpinHalfSite', 'FermionSite')
     d = oc.maxdiff(cl.lean_dense(lean_out['denoteA'], dimsW), dA)
     if d > tol:
         fails.append(('correspondence', 'model.denote', f'denotation of the model differs from the dense operator by {d:.2e}'))
     if Ad is not None:
-        cmp_mpo(fails, 'dagger', Ad, lean_out['dagger'])
+        cmp_mpo(fails, 'dagger', Ad, lean_out['dagger'], exact)
     if not lean_out.get('dagger_ok'):
         fails.append(('correspondence', 'model.dagger_ok', 'model: denote(dagger A) != dagger(denote A)'))
-    if lean_out.get('hermitian') != herm_exact:
+    if exact and lean_out.get('hermitian') != herm_exact:
         fails.append(('correspondence', 'model.hermitian', f'model {lean_out.get("hermitian")} dense {herm_exact}'))
     if S is not None and 'add' in lean_out:
-        cmp_mpo(fails, 'add', S, lean_out['add'])
+        cmp_mpo(fails, 'add', S, lean_out['add'], exact)
         if not lean_out.get('add_ok'):
             fails.append(('correspondence', 'model.add_ok', 'model: denote(A+B) != denote A + denote B'))
     if B is not None and 'equal' in lean_out:
-        if lean_out['equal'] != (oc.maxdiff(dA, dB) <= tol):
+        if exact and lean_out['equal'] != (oc.maxdiff(dA, dB) <= tol):
             fails.append(('correspondence', 'model.equal', f'model {lean_out["equal"]}'))
         if 'overlap' in lean_out:
             want = np.vdot(dA.reshape(-1), dB.reshape(-1))
             if not close(oc.parse_gq(lean_out['overlap']), want, abs(want)) or not lean_out.get('overlap_ok'):
                 fails.append(('correspondence', 'model.overlap', f'model {lean_out["overlap"]} ok={lean_out.get("overlap_ok")} dense {want}'))
     if P is not None and 'plus_identity' in lean_out:
-        cmp_mpo(fails, 'plus_identity', P, lean_out['plus_identity'])
+        cmp_mpo(fails, 'plus_identity', P, lean_out['plus_identity'], exact)
         if not lean_out.get('plus_identity_ok'):
             fails.append(('correspondence', 'model.plus_identity_ok', 'model: denote(plus_identity) != alpha + beta * denote A'))
     if U is not None and 'UI' in lean_out:
-        cmp_mpo(fails, 'UI', U, lean_out['UI'])
+        cmp_mpo(fails, 'UI', U, lean_out['UI'], exact)
         if not (lean_out.get('UI_order0_ok') and lean_out.get('UI_order1_ok')):
             fails.append(('correspondence', 'model.UI_first_order',
                           f'model: dt^0 ok={lean_out.get("UI_order0_ok")} dt^1 ok={lean_out.get("UI_order1_ok")}'))
@@ -305,6 +368,17 @@ def terms_checks(case, real, dA, fails, facts, attempt, prop):
             return cl.mpo_dense(g.build_MPO())
         rt = attempt('to_TermList', roundtrip)
         facts['roundtrip'] = True
+
+        def start_orders():
+            def canon(tl):
+                return sorted(((tuple((o, int(i)) for o, i in t), (round(float(np.real(s_)), 10), round(float(np.imag(s_)), 10)))
+                               for t, s_ in zip(tl.terms, tl.strength)), key=repr)
+            a = canon(A.to_TermList(cl.OP_BASIS[key], cutoff=1e-13))
+            b = canon(A.to_TermList(cl.OP_BASIS[key], start=list(range(A.L))[::-1], cutoff=1e-13))
+            return a, b
+        so = attempt('to_TermList', start_orders)
+        if so is not None and so[0] != so[1]:
+            prop('to_TermList.depends-on-order-of-start', f'start=range(L) gives {len(so[0])} terms, start=reversed(range(L)) gives {len(so[1])}')
         if rt is not None:
             # to_TermList drops pure identity strings (a constant); compare up to a multiple of the identity
             diff = rt - dA
@@ -324,41 +398,61 @@ def terms_checks(case, real, dA, fails, facts, attempt, prop):
     if ev is not None and not close(ev, want_ev, abs(want_ev)):
         prop('expectation_value.mismatch', f'<psi|H|psi> = {ev} vs dense {want_ev}')
     var = attempt('variance', lambda: complex(A.variance(psi)))
-    want_var = np.vdot(Hv, Hv) - want_ev ** 2
+    want_var = np.vdot(vec, dA @ Hv) - want_ev ** 2
     if var is not None and not close(var, want_var, abs(want_var) + abs(want_ev) ** 2):
         prop('variance.mismatch', f'variance {var} vs dense {want_var}')
-    # application by every method
+    # application by every method: exact without truncation; with truncation (of a near-identity operator, the
+    # regime the zip-up method is documented for) the reported error bounds the actual one
     nrm = np.linalg.norm(Hv)
+    methods = ['SVD', 'zip_up', 'variational']
+
+    def run_apply(op, state, method, chi_max):
+        p2 = state.copy()
+        opts = {'compression_method': method, 'trunc_params': {'chi_max': chi_max, 'svd_min': 1e-14},
+                'max_sweeps': 8, 'min_sweeps': 2, 'm_temp': 2, 'max_trunc_err': None}
+        err = op.apply(p2, opts)
+        return err, p2.norm * full_vector(p2)
     if nrm > 1e-8:
-        for method in ['SVD', 'zip_up', 'variational']:
-            for chi_max in (64, 2):
-                def run():
-                    p2 = psi.copy()
-                    opts = {'compression_method': method, 'trunc_params': {'chi_max': chi_max, 'svd_min': 1e-14},
-                            'max_sweeps': 6, 'min_sweeps': 2, 'm_temp': 2}
-                    err = A.apply(p2, opts)
-                    res = p2.norm * full_vector(p2)
-                    return err, res
-                r = attempt(f'apply.{method}', run)
+        for method in methods:
+            if method == 'variational' and A.L < 3:
+                continue   # the two-site sweep needs L > 2 (assert in get_sweep_schedule)
+            r = attempt(f'apply.{method}', lambda: run_apply(A, psi, method, 256))
+            if r is None:
+                continue
+            err, res = r
+            facts[f'apply.{method}'] = True
+            delta2 = float(np.sum(np.abs(res - Hv) ** 2)) / nrm ** 2
+            if delta2 > 1e-10:
+                prop(f'apply.{method}.exact-mismatch', f'no truncation, |H psi - result|^2/|H psi|^2 = {delta2:.2e}')
+    if A.L >= 3 and max(psi.chi) > 2 and nrm > 1e-8:
+        hn = max(1.0, float(np.linalg.norm(dA, 2)))
+        Unear = attempt('make_U_II', lambda: A.make_U_II(0.05 / hn))
+        if Unear is not None:
+            dU = cl.mpo_dense(Unear)
+            Uv = dU @ vec
+            n2 = float(np.linalg.norm(Uv))
+            for method in methods:
+                r = attempt(f'apply.{method}', lambda: run_apply(Unear, psi, method, 2))
                 if r is None:
                     continue
                 err, res = r
-                facts[f'apply.{method}'] = True
-                # compare up to the global phase convention: none is applied by tenpy, the vector is absolute
-                delta2 = float(np.sum(np.abs(res - Hv) ** 2)) / nrm ** 2
+                facts[f'apply.{method}.truncated'] = True
+                delta2 = float(np.sum(np.abs(res - Uv) ** 2)) / n2 ** 2
                 eps = float(abs(getattr(err, 'eps', 0.0)))
-                bound = 4.0 * eps + 1e-10
-                if chi_max == 64 and delta2 > 1e-10:
-                    prop(f'apply.{method}.exact-mismatch', f'no truncation, |H psi - result|^2/|H psi|^2 = {delta2:.2e}')
-                elif delta2 > bound + (0.0 if method != 'variational' else 1e-6):
-                    prop(f'apply.{method}.error-above-reported', f'|H psi - result|^2/|H psi|^2 = {delta2:.2e} reported eps = {eps:.2e}')
+                # SVD / zip-up report the accumulated discarded weight; the variational method reports the largest
+                # truncation of its last sweep, i.e. a per-bond number (L-1 bonds)
+                factor = 4.0 if method != 'variational' else 4.0 * (A.L - 1)
+                if delta2 > factor * eps + 1e-10:
+                    prop(f'apply.{method}.error-above-reported',
+                         f'chi_max=2: |U psi - result|^2/|U psi|^2 = {delta2:.3e}, reported eps = {eps:.3e}')
     # propagators: error ratio at t, t/2, t/4 (test level)
     if case.get('herm') and oc.herm_defect(dA) <= tol and A.L >= 2:
         import scipy.linalg
         res = {}
         for kind in ('I', 'II'):
             errs = []
-            for t in (0.08, 0.04, 0.02):
+            hn = max(1.0, float(np.linalg.norm(dA, 2)))
+            for t in (0.1 / hn, 0.05 / hn, 0.025 / hn):
                 def mk():
                     U = A.make_U_I(-1j * t) if kind == 'I' else A.make_U_II(-1j * t)
                     return cl.mpo_dense(U)
@@ -369,7 +463,7 @@ def terms_checks(case, real, dA, fails, facts, attempt, prop):
                 errs.append(float(np.linalg.norm(Ud - scipy.linalg.expm(-1j * t * dA))))
             res[kind] = errs
         facts['propagators'] = True
-        for kind, lo in (('I', 2.5), ('II', 5.0)):
+        for kind, lo in (('I', 3.0), ('II', 3.0)):
             errs = res.get(kind)
             if not errs or errs[0] < 1e-9:
                 continue
